@@ -297,6 +297,22 @@ def rule_r3(repo, run):
                       "BlockNode reads parent.%s but %s (documented as admissible parent) never defines it: "
                       "a `block:` inside a %s dies with AttributeError" % (attr, pc, pc.replace("Node", "").lower()),
                       am.loc(node), sample=dict(parent=pc, attr=attr))
+    # a declaration inside a block has the block as its parent: what the wrappers read from `<declaration>.parent`
+    # must be there whichever kind of scope the parent is
+    from sa.loader import PY_MODULES
+    asked = {}
+    for mn in PY_MODULES:
+        if not mn.startswith("wrap"):
+            continue
+        wm = repo.module(mn)
+        for x in ast.walk(wm.tree):
+            if isinstance(x, ast.Attribute) and isinstance(x.value, ast.Attribute) and x.value.attr == "parent" \
+                    and isinstance(x.value.value, ast.Name) and isinstance(x.ctx, ast.Load) and x.attr not in ("fmtdict", "options"):
+                asked.setdefault(x.attr, (wm, x))
+    for attr, (wm, x) in sorted(asked.items()):
+        run.check(R, "ast.BlockNode:parent-attribute:%s" % attr, attr in own or attr in methods,
+                  "%s reads `%s` and a declaration inside `- block: true` has the BlockNode as its parent, which never sets "
+                  "`%s`: AttributeError for a declaration that works outside the block" % (wm.name, ast.unparse(x), attr), wm.loc(x))
 
 
 def _kw_key(test):
